@@ -4,6 +4,7 @@ from ..check import Slice, Query
 from ..summary import Item, items, is_ok, bv
 
 ID = 'C05'
+ENGINE_B = {'template': 't_impl', 'kinds': ['addrcall_'], 'max_quick': 12, 'max_thorough': 64, 'abi': True}
 CC = ['C', 'cdecl', 'stdcall', 'fastcall', 'thiscall', 'vectorcall', 'system', 'bogus']
 ARGT = {0: ['raw', 'u32'], 1: ['raw', 'u64'], 2: ['const*', ['raw', 'm::T']], 3: ['mut*', ['raw', 'u8']], 5: ['raw', 'bool']}
 ARGS_TXT = {0: 'u32', 1: 'u64', 2: '*const T', 3: '*mut u8', 4: 'Nope', 5: 'bool', 6: '*const Nope'}
